@@ -63,6 +63,10 @@ class Member:
         key = key if isinstance(key, tuple) else (key,)
         return core.ctx().decide(self.pred(*[lift(x) for x in key]), self.label)
 
+    def sym_contains(self, key):
+        key = key if isinstance(key, tuple) else (key,)
+        return Sym(self.pred(*[lift(x) for x in key]))
+
 
 class IdxSet:
     """an index list handed to add_variables: only the set of indexes matters (members: the explicit list, in concrete instances)"""
@@ -209,6 +213,12 @@ class Solver(Tracked):
             raise Unsupported("add_constraint of a non-row")
         self.store.add(expr)
 
+    def set_objective(self, expr, sense="minimize"):
+        """CONTRACT of SolverWrapper.set_objective (C12 unit): the objective is REPLACED by expr, with the given sense"""
+        if not hasattr(self, "objectives"):
+            object.__setattr__(self, "objectives", [])
+        self.objectives.append((lift(expr) if isinstance(expr, Sym) else z3.RealVal(expr), sense))
+
     def quicksum(self, it):
         from pyvc.rt import sum_
         import types
@@ -217,6 +227,16 @@ class Solver(Tracked):
             for x in it:
                 r = r + x
             return r
+        if isinstance(it, LazyMap) and it.flt is not None:
+            # a filtered generator: the sum over ALL positions of (term if kept else 0)
+            fn, flt = it.fn, it.flt
+
+            def term(el):
+                keep = flt(el)
+                if isinstance(keep, Sym):
+                    return Sym(z3.If(keep.t, _real(lift(fn(el))), z3.RealVal(0)))
+                return fn(el) if keep else 0
+            it = LazyMap(it.kind, term, it.seq, None)
         return sum_(it)
 
     def add_binary_continuous_product_constraint(self, binary_var, continuous_var, product_var, lb, ub, name=""):
@@ -244,6 +264,10 @@ def _integer_product(self, integer_var, continuous_var, product_var, lb, ub, nam
 
 
 Solver.add_integer_continuous_product_constraint = _integer_product
+
+
+def _real(t):
+    return z3.ToReal(t) if t.sort() == INT else t
 
 
 def link_sum(c, name, canon, canon_step, n, prop=None):
@@ -1805,6 +1829,174 @@ def u_encode_walks(allow_empty):
                              "(arXiv 2209.00042: the selected edges form an in-tree spanning the used nodes); the reconstruction's precondition `balanced and connected` rests on it; the bounded part checks the returned walks"])
 
 
+# =====================================================================================================================
+# Objectives (C07 / C08 / C16: "the reported objective is the solver's objective"): what is handed to set_objective
+
+def u_objective_lae(relpath, cls):
+    """k-Least-Absolute-Errors: minimise  sum over the non-ignored edges of  error(e) * scaling(e)   (scaling 1 when absent)"""
+    P = "C07"
+    BU, BV = z3.Function("basic_edge_tail", INT, INT), z3.Function("basic_edge_head", INT, INT)
+
+    def h(c, f):
+        nb = c.fresh_const("n_non_ignored_edges", INT)
+        c.assume(nb >= 0)
+        OBJ = prefix_sum(c, "scaled_error_sum", lambda q: EE(BU(q), BV(q)) * SCALE(BU(q), BV(q)), 0)
+
+        class Me(Tracked):
+            pass
+        me = Me()
+        sol = Solver({})
+
+        def linked(it):
+            r = Solver.quicksum(sol, it)
+            bs = c.sums[-1]
+            if not c._valid(bs.n == nb):
+                raise Unsupported("objective sum over something else than the non-ignored edges")
+            link_sum(c, "objective-built-by-the-code=sum-of-scaled-errors", lambda q: OBJ(q), lambda q: z3.Implies(q >= 0, OBJ(q + 1) == OBJ(q) + EE(BU(q), BV(q)) * SCALE(BU(q), BV(q))), nb, prop=P)
+            return r
+        sol.quicksum = linked
+        me.solver = sol
+        me.edge_indexes_basic = SymSeq(nb, lambda q: (Sym(BU(lift(q))), Sym(BV(lift(q)))), STuple(SInt, SInt), "edge_indexes_basic")
+        me.edge_errors_vars = VarMap("edge_errors_vars", EE, lambda a, b: z3.BoolVal(True), 2)
+        me.edge_error_scaling = ScaleMap()
+        H0 = lift(sol.store.holds)
+        f(me)
+        objs = getattr(sol, "objectives", [])
+        c.prove("post:the-objective-is-set-exactly-once,-to-be-minimised,-and-no-row-is-added", z3.BoolVal(len(objs) == 1 and objs[0][1] == "minimize" and lift(sol.store.holds).eq(H0)), prop=P)
+        if len(objs) == 1:
+            c.prove("post:objective=sum-over-the-non-ignored-edges-of-error(e)*scaling(e)-(the-quantity-get_objective_value-recomputes)", objs[0][0] == OBJ(nb), prop=P)
+    def concrete(edges, scaled):
+        def hc(c, f):
+            class Me(Tracked):
+                pass
+            me = Me()
+            sol = Solver({})
+            me.solver = sol
+            me.edge_indexes_basic = list(edges)
+            me.edge_errors_vars = VarMap("edge_errors_vars", EE, lambda a, b: z3.BoolVal(True), 2)
+            me.edge_error_scaling = {e: Sym(SCALE(*e)) for e in scaled}
+            f(me)
+            objs = getattr(sol, "objectives", [])
+            want = sum([EE(*e) * (SCALE(*e) if e in scaled else 1) for e in edges], z3.RealVal(0))
+            c.prove("instance:objective=sum-of-error*scaling-minimised", z3.And(z3.BoolVal(len(objs) == 1 and objs[0][1] == "minimize"), objs[0][0] == want) if objs else z3.BoolVal(False), prop=P)
+        return hc
+
+    def instances():
+        return [("three-edges,one-scaled", concrete([(0, 1), (1, 2), (0, 2)], [(1, 2)])), ("two-edges,both-scaled", concrete([(0, 1), (1, 2)], [(0, 1), (1, 2)])), ("no-edge", concrete([], []))]
+    return Unit(relpath, cls + "._encode_objective", h, globs=dict(utils=UtilsStub), props=[P], callee_contracts=[A1C, "SolverWrapper.set_objective replaces the objective (C12)"], instances=instances,
+                assumptions=[A3, "edge_indexes_basic enumerates the non-ignored edges (established by the decomposition encoder, its own unit)"])
+
+
+def u_objective_mpe(relpath, cls):
+    """k-Min-Path-Error: minimise the sum of the path / walk slacks"""
+    P = "C08"
+
+    def h(c, f):
+        k = c.fresh_const("k", INT)
+        c.assume(k >= 1)
+        OBJ = prefix_sum(c, "slack_sum", lambda q: SLACK(q), 0)
+
+        class Me(Tracked):
+            pass
+        me = Me()
+        sol = Solver({})
+
+        def linked(it):
+            r = Solver.quicksum(sol, it)
+            bs = c.sums[-1]
+            tj = z3.Int(c.name("tj"))
+            if not c._valid(bs.t(tj) == SLACK(tj)):
+                raise Unsupported("objective sum over something else than slacks")
+            # linked up to the length the code sums over: a wrong length then shows in the postcondition, not as `unsupported`
+            link_sum(c, "objective-built-by-the-code=sum-of-the-slacks", lambda q: OBJ(q), lambda q: z3.Implies(q >= 0, OBJ(q + 1) == OBJ(q) + SLACK(q)), bs.n, prop=P)
+            return r
+        sol.quicksum = linked
+        me.solver, me.k = sol, Sym(k)
+        me.path_slacks_vars = VarMap("path_slacks_vars", SLACK, lambda i: z3.And(i >= 0, i < k), 1)
+        H0 = lift(sol.store.holds)
+        f(me)
+        objs = getattr(sol, "objectives", [])
+        c.prove("post:the-objective-is-set-exactly-once,-to-be-minimised,-and-no-row-is-added", z3.BoolVal(len(objs) == 1 and objs[0][1] == "minimize" and lift(sol.store.holds).eq(H0)), prop=P)
+        if len(objs) == 1:
+            c.prove("post:objective=sum-of-the-k-slacks-(the-quantity-get_objective_value-recomputes)", objs[0][0] == OBJ(k), prop=P)
+    def concrete(kk):
+        def hc(c, f):
+            class Me(Tracked):
+                pass
+            me = Me()
+            sol = Solver({})
+            me.solver, me.k = sol, kk
+            me.path_slacks_vars = VarMap("path_slacks_vars", SLACK, lambda i: z3.BoolVal(True), 1)
+            f(me)
+            objs = getattr(sol, "objectives", [])
+            c.prove("instance:objective=sum-of-the-k-slacks-minimised", z3.And(z3.BoolVal(len(objs) == 1 and objs[0][1] == "minimize"), objs[0][0] == sum([SLACK(i) for i in range(kk)], z3.RealVal(0))) if objs else z3.BoolVal(False), prop=P)
+        return hc
+    return Unit(relpath, cls + "._encode_objective", h, globs=dict(utils=UtilsStub), props=[P], callee_contracts=[A1C, "SolverWrapper.set_objective replaces the objective (C12)"], assumptions=[A3],
+                instances=lambda: [("k=1", concrete(1)), ("k=3", concrete(3))])
+
+
+def u_objective_mef():
+    """MinErrorFlow: minimise  sum over the non-ignored edges of  error(e) * scaling(e)  +  lambda * (corrected flow leaving the source)  [lambda > 0]"""
+    P = "C16"
+    XV, ER = z3.Function("corrected_flow_var", INT, INT, REAL), z3.Function("edge_error_var", INT, INT, REAL)
+    SO = z3.Function("source_out_neighbour", INT, INT)
+
+    def h(c, f):
+        g = Graph(c)
+        lam = c.fresh_const("sparsity_lambda", REAL)
+        nso = c.fresh_const("source_out_degree", INT)
+        c.assume(z3.And(lam >= 0, nso >= 0))
+        q_ = z3.Int("hq")
+        c.assume(z3.ForAll([q_], z3.Implies(z3.And(q_ >= 0, q_ < nso), g.EDGE(g.source.t, SO(q_)))))
+        term = lambda q: z3.If(z3.Not(IGN(g.EU(q), g.EV(q))), ER(g.EU(q), g.EV(q)) * SCALE(g.EU(q), g.EV(q)), z3.RealVal(0))
+        OBJ = prefix_sum(c, "scaled_error_sum_over_kept_edges", term, 0)
+        SRC = prefix_sum(c, "corrected_flow_out_of_source", lambda q: XV(g.source.t, SO(q)), 0)
+
+        class GG:
+            source = g.source
+            def edges(self, data=False): return g.edges(data)
+            def out_edges(self, a): return SymSeq(nso, lambda q: (a, Sym(SO(lift(q)))), STuple(SInt, SInt), "out_edges")
+
+        class Me(Tracked):
+            pass
+        me = Me()
+        sol = Solver({})
+
+        def linked(it):
+            r = Solver.quicksum(sol, it)
+            bs = c.sums[-1]
+            tj = z3.Int(c.name("tj"))
+            t = bs.t(tj)
+            if c._valid(z3.And(bs.n == g.n, t == term(tj))):
+                link_sum(c, "sum-built-by-the-code=scaled-errors-of-the-non-ignored-edges", lambda q: OBJ(q), lambda q: z3.Implies(q >= 0, OBJ(q + 1) == OBJ(q) + term(q)), g.n, prop=P)
+            elif c._valid(z3.And(bs.n == nso, t == XV(g.source.t, SO(tj)))):
+                link_sum(c, "sum-built-by-the-code=corrected-flow-leaving-the-source", lambda q: SRC(q), lambda q: z3.Implies(q >= 0, SRC(q + 1) == SRC(q) + XV(g.source.t, SO(q))), nso, prop=P)
+            else:
+                raise Unsupported("objective sum not recognised: %s" % t)
+            return r
+        sol.quicksum = linked
+        me.solver, me.G = sol, GG()
+        me.edge_error_vars = VarMap("edge_error_vars", ER, lambda a, b: g.EDGE(a, b), 2)
+        me.edge_vars = VarMap("edge_vars", XV, lambda a, b: g.EDGE(a, b), 2)
+        me.edge_error_scaling = ScaleMap()
+        me.edges_to_ignore = Member(IGN, "ignored")
+        me.sparsity_lambda = Sym(lam)
+        H0 = lift(sol.store.holds)
+        f(me)
+        objs = getattr(sol, "objectives", [])
+        c.prove("post:the-objective-is-set-exactly-once,-to-be-minimised,-and-no-row-is-added", z3.BoolVal(len(objs) == 1 and objs[0][1] == "minimize" and lift(sol.store.holds).eq(H0)), prop=P)
+        if len(objs) == 1:
+            c.prove("post:objective=sum-over-non-ignored-edges-of-error*scaling-plus-lambda*(flow-leaving-the-source)",
+                    objs[0][0] == OBJ(g.n) + z3.If(lam > 0, lam * SRC(nso), z3.RealVal(0)), prop=P)
+    return Unit("flowpaths/minerrorflow.py", "MinErrorFlow._encode_min_sum_errors_objective", h, globs=dict(utils=UtilsStub), props=[P],
+                callee_contracts=[A1C, "SolverWrapper.set_objective replaces the objective (C12)"], assumptions=[A3, "A2 out_edges(source) enumerates the edges leaving the source"])
+
+
+def objective_units():
+    return [u_objective_lae("flowpaths/kleastabserrors.py", "kLeastAbsErrors"), u_objective_lae("flowpaths/kleastabserrorscycles.py", "kLeastAbsErrorsCycles"),
+            u_objective_mpe("flowpaths/kminpatherror.py", "kMinPathError"), u_objective_mpe("flowpaths/kminpatherrorcycles.py", "kMinPathErrorCycles"), u_objective_mef()]
+
+
 def all_units():
-    return dag_units() + cyc_units() + [u_subset_constraints()] + [u_encode_walks(False), u_encode_walks(True)] + [u_mingenset(w, m_) for w in (int, float) for m_ in (False, True)] + [u_symmetry_breaking()] + [u_min_error_flow(int), u_min_error_flow(float)] + [u_encode_paths(False), u_encode_paths(True)] + \
+    return dag_units() + cyc_units() + objective_units() + [u_subset_constraints()] + [u_encode_walks(False), u_encode_walks(True)] + [u_mingenset(w, m_) for w in (int, float) for m_ in (False, True)] + [u_symmetry_breaking()] + [u_min_error_flow(int), u_min_error_flow(float)] + [u_encode_paths(False), u_encode_paths(True)] + \
         [u_cover("flowpaths/kpathcover.py", "kPathCover._encode_path_cover", "subpath_constraints"), u_cover("flowpaths/kpathcovercycles.py", "kPathCoverCycles._encode_walk_cover", "subset_constraints")]
